@@ -138,6 +138,17 @@ CLAIMED = {
         "technique": "Lean 4 proof (partial: dialect admissibility + quoted-cell lemma) + exhaustive configuration x content correspondence",
         "design_ref": "DESIGN.md §6 C12",
     },
+    "C14": {
+        "text": "Lean 4 theorems (Props/C14.lean) prove for every column/check list, pad function, header and row sequence that the writer's output is exactly the "
+                "accepted rows, padded, in order (C14_emits_accepted), that a rejected write emits nothing and leaves the line counter unchanged (C14_write_row), "
+                "that the verdict is validate_row's (C14_verdict_is_validation) and that padded items have exactly the field widths (C14_padding). Correspondence: "
+                "row sequences mixing accepted/rejected rows through cutplace.Writer for delimited and fixed CIDs, verdict per write, exact stream contents, and "
+                "read-back of the output through the real Reader.",
+        "note": "Trusted: Lean kernel; engine model faithfulness (correspondence); the read-back half of the statement is checked on the implementation only "
+                "(it composes C12/C13 with the engine and needs blanks-stable CIDs: known finding for fixed-width padding).",
+        "technique": "Lean 4 proof (induction over the write sequence) + differential correspondence incl. byte-exact output",
+        "design_ref": "DESIGN.md §6 C14",
+    },
 }
 
 NOT_YET = {
